@@ -68,6 +68,12 @@ impl Write for Limited {
             Some(k) => { let n = (k as usize).min(b.len()); self.buf.extend_from_slice(&b[..n]); Ok(n) }
         }
     }
+    /// gathered writes are honoured across buffers like a socket's writev (std's default would forward only the first
+    /// non-empty buffer and hide mistakes in hand-written progress accounting)
+    fn write_vectored(&mut self, bufs: &[io::IoSlice<'_>]) -> io::Result<usize> {
+        let all: Vec<u8> = bufs.iter().flat_map(|b| b.iter().copied()).collect();
+        self.write(&all)
+    }
     fn flush(&mut self) -> io::Result<()> { Ok(()) }
 }
 
